@@ -76,15 +76,19 @@ Escapes == V("q\"uo\\te", FALSE, "\"q\\\"uo\\\\te\"")     \* q"uo\te
 TwoLine == V("x\r\ny", FALSE, "-")
 Empty   == V("", FALSE, "\"\"")
 BraceLike == V("{3}", FALSE, "\"{3}\"")
+(* octets above 127: one character of `text` is one octet (latin-1); this value is
+   the two octets C3 A9 after "caf" (UTF-8 for e-acute), 5 octets in all.  CHAR8
+   may only travel in a literal. *)
+EightBit == V("cafÃ©", FALSE, "-")
 
 (* mailbox names; only the exact name INBOX (any case) is the inbox *)
 MboxInbox == {Plain("INBOX"), Plain("inbox"), Plain("InBoX")}
 MboxNear  == {Plain("inboxes"), Plain("INBOX/x"), Plain("xinbox"), Plain("inbox.old")}
-MboxPlain == {Plain("a"), Plain("a/b"), Spacey, Escapes} \cup (IF Wide THEN {TwoLine, BraceLike, Plain("Sent]")} ELSE {})
+MboxPlain == {Plain("a"), Plain("a/b"), Spacey, Escapes, EightBit} \cup (IF Wide THEN {TwoLine, BraceLike, Plain("Sent]")} ELSE {})
 MboxAll   == MboxInbox \cup MboxNear \cup MboxPlain
 MboxAlts  == {<<S("m:", v, AllForms)>> : v \in MboxAll}
 (* a small choice for the commands where the mailbox is not the point *)
-MboxSmall == {<<S("m:", Plain("a/b"), {"atom"})>>, <<S("m:", Spacey, {"quoted"})>>,
+MboxSmall == {<<S("m:", Plain("a/b"), {"atom"})>>, <<S("m:", Spacey, {"quoted"})>>, <<S("m:", EightBit, {"lit"})>>,
               <<S("m:", Plain("INBOX"), {"atom"})>>, <<S("m:", Plain("inboxes"), {"atom"})>>,
               <<S("m:", Escapes, {"lit+"})>>}
 
@@ -117,7 +121,7 @@ FlagSmall == {<<T("\\Deleted", <<"f:\\Deleted">>)>>, <<T("$Fwd", <<"f:$Fwd">>)>>
 
 (* strings searched for (case-insensitive), header field names (case-insensitive) *)
 StrAll == {Plain("foo"), V("Hello World", FALSE, "\"Hello World\""), Escapes}
-          \cup (IF Wide THEN {TwoLine, Empty, BraceLike} ELSE {})
+          \cup (IF Wide THEN {TwoLine, Empty, BraceLike, EightBit} ELSE {})
 HdrNames == {Plain("Subject"), Plain("x-y")}
 
 StatusAtt == {<<"MESSAGES", "messages">>, <<"UNSEEN", "unseen">>, <<"uidnext", "uidnext">>}
@@ -369,7 +373,7 @@ OptDateAlts == {<<T("", <<"nodate">>)>>,
 OptDateSmall == {<<T("", <<"nodate">>)>>,
                  <<T("\" 1-Feb-2020 12:34:56 +0200\" ", <<"dt:2020-02-01T10:34:56Z">>)>>}
 Msg1 == V("Subject: x" \o CRLF \o CRLF \o "hi" \o CRLF, FALSE, "-")
-Msg2 == V("From: a@b" \o CRLF \o "Subject: {5}" \o CRLF \o CRLF \o "a1 NOOP" \o CRLF \o "(\"x\\" \o CRLF, FALSE, "-")
+Msg2 == V("From: a@b" \o CRLF \o "Subject: {5}" \o CRLF \o CRLF \o "a1 NOOP Ã©" \o CRLF \o "(\"x\\" \o CRLF, FALSE, "-")
 Msg3 == V("", FALSE, "-")
 MsgLitAlts == {<<S("lit:", m, {"lit", "lit+"})>> : m \in {Msg1, Msg2} \cup (IF Wide THEN {Msg3} ELSE {})}
               \cup {<<B("\"Subject: x\"", "badtok")>>, <<B("atom", "badtok")>>}
